@@ -6,6 +6,7 @@ import Mathlib.Tactic.Ring
 import Mathlib.Tactic.FieldSimp
 import ERP.Lemmas.GenArith
 import ERP.Lemmas.GenConsts
+import ERP.Lemmas.GenTies
 /-! # C16 — Arc moves are sampled faithfully (over ℝ, with `Real.sqrt/sin/cos`, `atan2 = Complex.arg`)
 
 About `T.planArc`, which the refinement theorem identifies with `planArc` of the faithful model on
